@@ -6,6 +6,7 @@ SRC = "src/atom_table.rs"
 MOD = "atom_c21"
 Q = ("quick", "thorough")
 T = ("thorough",)
+D = ("deep",)     # unregistered: did not finish within 35 min here (symbolic-length memcmp in str::cmp)
 
 
 def H(name, cost, desc, bounds, tiers=Q, **kw):
@@ -24,12 +25,12 @@ HARNESSES = [
     H("c21_roundtrip_6b", 40, RT, "|s|=6, symbolic bytes at 2,3", tiers=T),
     H("c21_roundtrip_6c", 40, RT, "|s|=6, symbolic bytes at 4,5", tiers=T),
     H("c21_order_1", 400, "atoms differing in one byte are distinct and ordered bytewise", "|s|=1",
-      tiers=T, timeout=3600),
-    H("c21_order_3", 60, "same", "|s|=3, position 1", tiers=T),
-    H("c21_order_6_first", 900, "same", "|s|=6, position 0", tiers=T, timeout=3600),
-    H("c21_order_6_last", 120, "same", "|s|=6, position 5", tiers=T, timeout=1500),
+      tiers=D, timeout=3600),
+    H("c21_order_3", 60, "same", "|s|=3, position 1", tiers=D),
+    H("c21_order_6_first", 900, "same", "|s|=6, position 0", tiers=D, timeout=3600),
+    H("c21_order_6_last", 120, "same", "|s|=6, position 5", tiers=D, timeout=1500),
     H("c21_prefix_is_smaller", 400, "a proper prefix is a different, smaller atom", "|s|=2 vs 3",
-      tiers=T, timeout=3600),
+      tiers=D, timeout=3600),
     H("c21_char_atom", 60, "new_char_inlined(c) = atom of the one-char text; NUL -> static atom",
       "every Unicode scalar value"),
     H("c21_atom_cell_packing", 20, "AtomCell::build_with/get_name/get_arity lossless",
@@ -46,7 +47,7 @@ ENCODED = ["Atom::new_inlined", "AtomCell::new_inlined", "AtomCell::new_char_inl
 ASSUME = ["texts are ASCII non-NUL with 1-2 symbolic byte positions per harness on a fixed "
           "template (more symbolic bytes do not finish, DESIGN P23)",
           "S1: arcu thread-local epoch counter stub where as_str is reached",
-          "quick tier: the order of atoms rests on the MIR fact Atom::cmp = str::cmp(as_str(a), as_str(b)) plus the K round trip; the direct K order harnesses (symbolic-length memcmp, slow) are thorough-only"]
+          "quick tier: the order of atoms rests on the MIR fact Atom::cmp = str::cmp(as_str(a), as_str(b)) plus the K round trip; the direct K order harnesses (symbolic-length memcmp in str::cmp) did not finish within 35 minutes each and are in no registered tier"]
 BOUNDS = "lengths 1..6; every scalar value for char atoms; every 49-bit index for cell packing"
 OUTSIDE = ("interned (dynamic) atoms beyond the data flow of the set through growth and insertion: IndexSet "
            "lookups, the RCU + lock protocol (concurrency), atom-producing builtins")
